@@ -79,12 +79,17 @@ def replay_case(c):
     # must move every count of the emitted matrix to the image cell and create no other entry
     if max(s for t in trajs for s in t) <= 2:
         for tag, amap, dt in (("wide-int32", [65000, 65001, 69999], np.int32), ("wide-int16", [180, 181, 200], np.int16),
-                              ("wide-int64", [65000, 65001, 69999], np.int64)):
+                              ("wide-int64", [65000, 65001, 69999], np.int64),
+                              # unsigned storage with the state ids at the very top of the type (a 256-state model
+                              # in uint8): there is no room for a padding marker, so the ragged form only
+                              ("top-uint8", [3, 254, 255], np.uint8), ("top-uint16", [7, 65534, 65535], np.uint16)):
             top = max((s for t in trajs for s in t))
             nn = amap[top] + 1 if n is None else amap[-1] + 1
             want = {(amap[i], amap[j]): int(exp[i, j]) for i in range(exp.shape[0]) for j in range(exp.shape[1]) if exp[i, j]}
             for form, mk in (("ragged", lambda: ra.RaggedArray([np.array([amap[s] for s in t], dtype=dt) for t in trajs])),
                              ("padded", lambda: np.where(padded >= 0, np.array(amap + [0] * 4)[np.clip(padded, 0, None)], -1).astype(dt))):
+                if form == "padded" and np.dtype(dt).kind == "u":
+                    continue
                 try:
                     from enspara.msm.transition_matrices import assigns_to_counts
                     C = assigns_to_counts(mk(), lag, max_n_states=None if n is None else nn, sliding_window=sliding).tocoo()
